@@ -112,6 +112,14 @@ class SymE:
             raise Unsupported('function %s not found in /repo' % qual)
         return f
 
+    def classcall(self, cls_qual, name, *args, **kw):
+        """cls.name(*args) for a classmethod / staticmethod, resolved through the class's MRO"""
+        c = self.cls(cls_qual)
+        return self.I.call_value(self.I.getattr(c, name), list(args), kw)
+
+    def func_exists(self, qual):
+        return Repo.get().func(qual) is not None
+
     def call(self, qual, *args, **kw):
         """call the real /repo function `qual` (callees replaced by the unit's contracts)"""
         f = self.func(qual)
